@@ -1,11 +1,575 @@
 /-
   C08 — property theorems for the Vi operator model (`Ptk.Model.C08`).
+
+  All theorems hold for every text, cursor, text object (offsets inside the text), register
+  contents and for every `isSpace` / `\s` classification and transform callback.
+  Main statements:
+    * `yank_never_edits`                       — y / "xy leave text and cursor alone
+    * `delete_charwise_exact`                  — d / c + characterwise span: exactly text[a:b) is
+                                                 removed and stored; re-inserting restores the text
+    * `delete_linewise_exact`                  — whole lines, LINES register, trailing newline rule
+    * `transform_frame`, `indent_frame`        — case / indent operators change nothing outside
+    * `empty_span_noop`, `failing_motion_noop` — empty span / failing motion: nothing changes
+    * `operatorRange_bounds`, `textObject_inRange`, `run_ok` — the range arithmetic never leaves
+                                                 the text for any modelled motion
 -/
 import Ptk.Model.C08
 namespace Ptk.C08
 open Ptk.Py
 
+def Inv (d : Doc) : Prop := d.cur ≤ d.text.length
+
+def InRange (d : Doc) (o : TextObject) : Prop :=
+  0 ≤ (d.cur : Int) + o.start ∧ (d.cur : Int) + o.start ≤ d.text.length ∧
+  0 ≤ (d.cur : Int) + o.stop ∧ (d.cur : Int) + o.stop ≤ d.text.length
+
+section helpers
+variable {α : Type}
+
+theorem length_takeWhile_le' (p : α → Bool) (l : List α) :
+    (l.takeWhile p).length ≤ l.length := by
+  induction l with
+  | nil => simp
+  | cons x xs ih => rw [List.takeWhile_cons]; split <;> simp <;> omega
+
+theorem slice_partition (t : List α) (a b : Nat) (h : a ≤ b) :
+    t.take a ++ ((t.take b).drop a) ++ t.drop b = t := by
+  have h1 : t.take a = (t.take b).take a := by rw [List.take_take]; congr 1; omega
+  rw [h1, List.take_append_drop, List.take_append_drop]
+end helpers
+
 theorem sorted_le (o : TextObject) : o.sorted.1 ≤ o.sorted.2 := by
   unfold TextObject.sorted; split <;> simp <;> omega
+
+theorem sorted_cases (o : TextObject) :
+    (o.sorted = (o.start, o.stop)) ∨ (o.sorted = (o.stop, o.start)) := by
+  unfold TextObject.sorted; split <;> simp
+
+theorem lineStart_le (t : Text) (i : Nat) : lineStart t i ≤ i ∧ lineStart t i ≤ t.length := by
+  unfold lineStart; simp; omega
+
+theorem lineEnd_ge (t : Text) (i : Nat) (h : i ≤ t.length) : i ≤ lineEnd t i := by
+  unfold lineEnd; omega
+
+theorem lineEnd_le (t : Text) (i : Nat) : lineEnd t i ≤ t.length := by
+  unfold lineEnd
+  have := length_takeWhile_le' notNl (t.drop i)
+  simp at this; omega
+
+/-- yank never edits -/
+theorem store_text (s : St) (reg : Option Char) (c : Clip) :
+    (store s reg c).text = s.text ∧ (store s reg c).cur = s.cur ∧ (store s reg c).insert = s.insert := by
+  unfold store; split
+  · simp
+  · split
+    · split <;> simp
+    · simp
+
+theorem yank_never_edits (s s' : St) (o : TextObject) (reg : Option Char)
+    (h : opYank s o reg = some s') :
+    s'.text = s.text ∧ s'.cur = s.cur ∧ s'.insert = s.insert := by
+  unfold opYank at h
+  split at h
+  · split at h
+    · split at h
+      · simp at h
+      · simp at h; subst h; exact store_text _ _ _
+    · simp at h; subst h; simp
+  · split at h
+    · simp at h
+    · simp at h; subst h; exact store_text _ _ _
+
+
+theorem sorted_inrange (d : Doc) (o : TextObject) (h : InRange d o) :
+    0 ≤ (d.cur : Int) + o.sorted.1 ∧ (d.cur : Int) + o.sorted.2 ≤ d.text.length := by
+  obtain ⟨h1, h2, h3, h4⟩ := h
+  rcases sorted_cases o with e | e <;> rw [e] <;> simp <;> omega
+
+theorem operatorRange_bounds (d : Doc) (o : TextObject) (h : InRange d o) :
+    0 ≤ (d.cur : Int) + (operatorRange d o).1 ∧
+    (operatorRange d o).1 ≤ (operatorRange d o).2 ∧
+    (d.cur : Int) + (operatorRange d o).2 ≤ d.text.length + (if o.type = .inclusive then 1 else 0) := by
+  have hs := sorted_le o
+  obtain ⟨h1, h2⟩ := sorted_inrange d o h
+  unfold operatorRange
+  cases ht : o.type
+  · -- exclusive
+    simp only []
+    split
+    · simp; omega
+    · simp; omega
+  · simp; omega
+  · -- linewise
+    simp only [lineStartI, lineEndI]
+    have ha : ¬ (o.sorted.1 + (d.cur : Int) < 0) := by omega
+    have hb : ¬ (o.sorted.2 + (d.cur : Int) < 0) := by omega
+    rw [if_neg ha, if_neg hb]
+    have l1 := lineStart_le d.text (o.sorted.1 + (d.cur : Int)).toNat
+    have l3 := lineEnd_le d.text (o.sorted.2 + (d.cur : Int)).toNat
+    have l2 := lineEnd_ge d.text (o.sorted.2 + (d.cur : Int)).toNat (by omega)
+    simp; omega
+
+/-- empty (non-linewise) span: every operator is a no-op on text, cursor, clipboard, registers -/
+theorem empty_span_noop (env : Env) (s s' : St) (op : Op) (o : TextObject) (count : Nat)
+    (ht : o.type ≠ .linewise)
+    (he : (operatorRange s.doc o).1 ≥ (operatorRange s.doc o).2)
+    (h : applyOp env s op o count = some s') :
+    s'.text = s.text ∧ s'.cur = s.cur ∧ s'.clip = s.clip ∧ s'.regs = s.regs := by
+  have hcut : cut s.doc o = some (s.doc, { text := [], lines := false }) := by
+    unfold cut
+    have : (o.type == TOType.linewise) = false := by
+      cases h' : o.type <;> simp_all
+    simp [this, he]
+  have hst : ∀ (x : St) reg, store x reg { text := [], lines := false } = x := by
+    intro x reg; unfold store; simp
+  cases op with
+  | delete reg =>
+    simp [applyOp, opDelete, hcut, hst] at h; subst h; simp [St.doc]
+  | change reg =>
+    simp [applyOp, opDelete, hcut, hst] at h; subst h; simp [St.doc]
+  | yank reg =>
+    simp only [applyOp, opYank, hcut, hst] at h
+    split at h
+    · split at h <;> (simp at h; subst h; simp)
+    · simp at h; subst h; simp
+  | transform k =>
+    simp only [applyOp, opTransform] at h
+    have : ¬ ((operatorRange s.doc o).1 < (operatorRange s.doc o).2) := by omega
+    rw [if_neg this] at h; simp at h; subst h; simp
+  | indent =>
+    simp only [applyOp, opIndent] at h
+    have : spansNothing s.doc o = true := by
+      unfold spansNothing
+      have : (o.type != TOType.linewise) = true := by cases h' : o.type <;> simp_all
+      simp [this]; omega
+    rw [if_pos this] at h; simp at h; subst h; simp
+  | unindent =>
+    simp only [applyOp, opIndent] at h
+    have : spansNothing s.doc o = true := by
+      unfold spansNothing
+      have : (o.type != TOType.linewise) = true := by cases h' : o.type <;> simp_all
+      simp [this]; omega
+    rw [if_pos this] at h; simp at h; subst h; simp
+
+
+/-- characterwise cut: exactly `text[a:b)` is removed and returned, the cursor lands on `a` -/
+theorem cut_charwise (d : Doc) (o : TextObject) (h : InRange d o) (ht : o.type ≠ .linewise)
+    (hne : (operatorRange d o).1 < (operatorRange d o).2) :
+    ∃ a b : Nat, (a : Int) = d.cur + (operatorRange d o).1 ∧ (b : Int) = d.cur + (operatorRange d o).2 ∧
+      a < b ∧
+      cut d o = some ({ text := d.text.take a ++ d.text.drop b, cur := a },
+                      { text := (d.text.take b).drop a, lines := false }) := by
+  obtain ⟨b1, b2, b3⟩ := operatorRange_bounds d o h
+  refine ⟨((d.cur : Int) + (operatorRange d o).1).toNat, ((d.cur : Int) + (operatorRange d o).2).toNat,
+    by omega, by omega, by omega, ?_⟩
+  have hl : (o.type == TOType.linewise) = false := by cases h' : o.type <;> simp_all
+  have b3' : (d.cur : Int) + (operatorRange d o).2 ≤ d.text.length + 1 := by
+    split at b3 <;> omega
+  unfold cut
+  simp only [hl]
+  have hnot : ¬ ((operatorRange d o).1 ≥ (operatorRange d o).2) := by omega
+  simp only [hnot, decide_false, Bool.not_false, Bool.and_false, Bool.false_eq_true, if_false]
+  have hdom : ¬ ((operatorRange d o).1 + (d.cur : Int) < 0 ∨ (operatorRange d o).2 + (d.cur : Int) - 1 < 0 ∨
+      (operatorRange d o).2 + (d.cur : Int) - 1 > d.text.length) := by omega
+  rw [if_neg hdom]
+  unfold cutSelection selRange
+  simp only [Bool.false_eq_true, if_false]
+  have e1 : min ((operatorRange d o).2 + (d.cur : Int) - 1).toNat ((operatorRange d o).1 + (d.cur : Int)).toNat
+      = ((d.cur : Int) + (operatorRange d o).1).toNat := by omega
+  have e2 : max ((operatorRange d o).2 + (d.cur : Int) - 1).toNat ((operatorRange d o).1 + (d.cur : Int)).toNat + 1
+      = ((d.cur : Int) + (operatorRange d o).2).toNat := by omega
+  rw [e1, e2]
+
+
+theorem notNl_iff (c : Char) : notNl c = true ↔ c ≠ '\n' := by simp [notNl]
+
+theorem dropWhile_notNl_head (l : Text) :
+    l.dropWhile notNl = [] ∨ ∃ r, l.dropWhile notNl = '\n' :: r := by
+  induction l with
+  | nil => simp
+  | cons x xs ih =>
+    rw [List.dropWhile_cons]
+    split
+    · exact ih
+    · right
+      rename_i hx
+      have : x = '\n' := by
+        by_cases hne : x = '\n'
+        · exact hne
+        · exact absurd ((notNl_iff x).2 hne) hx
+      exact ⟨xs, by rw [this]⟩
+
+theorem nl_not_mem_takeWhile (l : Text) : '\n' ∉ l.takeWhile notNl := by
+  intro hm
+  have := @List.all_takeWhile _ notNl l
+  rw [List.all_eq_true] at this
+  have := this _ hm
+  simp [notNl] at this
+
+/-- a text splits into (everything up to and including the last newline) ++ (last line) -/
+theorem last_line_split (l : Text) :
+    ∃ pre, l = pre ++ (l.reverse.takeWhile notNl).reverse ∧
+      (pre = [] ∨ ∃ q, pre = q ++ ['\n']) := by
+  refine ⟨(l.reverse.dropWhile notNl).reverse, ?_, ?_⟩
+  · have := List.takeWhile_append_dropWhile (p := notNl) (l := l.reverse)
+    have h2 : l.reverse.reverse = (l.reverse.takeWhile notNl ++ l.reverse.dropWhile notNl).reverse := by
+      rw [this]
+    rw [List.reverse_reverse, List.reverse_append] at h2
+    exact h2
+  · rcases dropWhile_notNl_head l.reverse with h | ⟨r, h⟩
+    · left; simp [h]
+    · right; exact ⟨r.reverse, by rw [h]; simp⟩
+
+theorem lineStart_spec (t : Text) (i : Nat) :
+    ∃ pre lb, t.take i = pre ++ lb ∧ pre.length = lineStart t i ∧ '\n' ∉ lb ∧
+      (pre = [] ∨ ∃ q, pre = q ++ ['\n']) := by
+  obtain ⟨pre, hp, hq⟩ := last_line_split (t.take i)
+  refine ⟨pre, ((t.take i).reverse.takeWhile notNl).reverse, hp, ?_, ?_, hq⟩
+  · unfold lineStart
+    have := congrArg List.length hp
+    simp at this
+    simp
+    omega
+  · intro hm
+    simp at hm
+    exact nl_not_mem_takeWhile _ hm
+
+theorem take_of_take_prefix {α : Type} (t : List α) (i : Nat) (pre lb : List α)
+    (h : t.take i = pre ++ lb) : t.take pre.length = pre := by
+  have : (t.take i).take pre.length = pre := by rw [h]; simp
+  rw [List.take_take] at this
+  have hl : pre.length ≤ i := by
+    have := congrArg List.length h
+    simp at this; omega
+  rwa [Nat.min_eq_left hl] at this
+
+theorem lineStart_idem (t : Text) (i : Nat) : lineStart t (lineStart t i) = lineStart t i := by
+  obtain ⟨pre, lb, h1, h2, _, h4⟩ := lineStart_spec t i
+  have hpre := take_of_take_prefix t i pre lb h1
+  rw [← h2]
+  unfold lineStart
+  rw [hpre]
+  rcases h4 with h | ⟨q, h⟩
+  · simp [h]
+  · rw [h]; simp [notNl]
+
+theorem lineStart_is_line_start (t : Text) (i : Nat) :
+    lineStart t i = 0 ∨ t[lineStart t i - 1]? = some '\n' := by
+  obtain ⟨pre, lb, h1, h2, _, h4⟩ := lineStart_spec t i
+  have hpre := take_of_take_prefix t i pre lb h1
+  rcases h4 with h | ⟨q, h⟩
+  · left; rw [← h2, h]; rfl
+  · right
+    rw [← h2]
+    have : (t.take pre.length)[pre.length - 1]? = some '\n' := by
+      rw [hpre, h]; simp
+    rw [List.getElem?_take] at this
+    split at this
+    · exact this
+    · simp at this
+
+theorem lineStart_no_nl (t : Text) (i : Nat) : '\n' ∉ (t.take i).drop (lineStart t i) := by
+  obtain ⟨pre, lb, h1, h2, h3, _⟩ := lineStart_spec t i
+  rw [h1, ← h2]; simpa using h3
+
+
+theorem drop_takeWhile_length {α : Type} (p : α → Bool) (l : List α) :
+    l.drop (l.takeWhile p).length = l.dropWhile p := by
+  induction l with
+  | nil => simp
+  | cons x xs ih =>
+    rw [List.takeWhile_cons, List.dropWhile_cons]
+    split <;> simp [ih]
+
+theorem lineEnd_spec (t : Text) (i : Nat) (h : i ≤ t.length) :
+    ∃ la rest, t.drop i = la ++ rest ∧ lineEnd t i = i + la.length ∧ '\n' ∉ la ∧
+      t.drop (lineEnd t i) = rest ∧ (rest = [] ∨ ∃ r, rest = '\n' :: r) := by
+  refine ⟨(t.drop i).takeWhile notNl, (t.drop i).dropWhile notNl,
+    (List.takeWhile_append_dropWhile).symm, ?_, nl_not_mem_takeWhile _, ?_, dropWhile_notNl_head _⟩
+  · unfold lineEnd; rw [Nat.min_eq_left h]
+  · have e : lineEnd t i = i + ((t.drop i).takeWhile notNl).length := by
+      unfold lineEnd; rw [Nat.min_eq_left h]
+    have : t.drop (i + ((t.drop i).takeWhile notNl).length)
+        = (t.drop i).drop ((t.drop i).takeWhile notNl).length := by simp [List.drop_drop]
+    rw [e, this, drop_takeWhile_length]
+
+theorem lineEnd_no_nl (t : Text) (i : Nat) (h : i ≤ t.length) :
+    '\n' ∉ (t.take (lineEnd t i)).drop i := by
+  obtain ⟨la, rest, h1, h2, h3, _, _⟩ := lineEnd_spec t i h
+  have : (t.take (lineEnd t i)).drop i = la := by
+    rw [h2, List.drop_take]
+    have : i + la.length - i = la.length := by omega
+    rw [this, h1]; simp
+  rw [this]; exact h3
+
+/-- linewise cut: whole lines `text[a:b)` are removed (`a` a line start, `b` behind a newline or
+    the end of the text), the register gets them without the final newline, type LINES -/
+theorem cut_linewise (d : Doc) (o : TextObject) (h : InRange d o) (ht : o.type = .linewise) :
+    ∃ a b : Nat, a ≤ b ∧ b ≤ d.text.length ∧
+      (a : Int) ≤ d.cur + o.sorted.1 ∧ (d.cur : Int) + o.sorted.2 ≤ b ∧
+      (a = 0 ∨ d.text[a - 1]? = some '\n') ∧ (b = d.text.length ∨ d.text[b - 1]? = some '\n') ∧
+      '\n' ∉ (d.text.take ((d.cur : Int) + o.sorted.1).toNat).drop a ∧
+      '\n' ∉ (d.text.take (b - 1)).drop ((d.cur : Int) + o.sorted.2).toNat ∧
+      cut d o = some ({ text := d.text.take a ++ d.text.drop b, cur := a },
+                      { text := stripNl ((d.text.take b).drop a), lines := true }) := by
+  have hs := sorted_le o
+  obtain ⟨h1, h2⟩ := sorted_inrange d o h
+  -- absolute ends of the motion
+  generalize hi : (o.sorted.1 + (d.cur : Int)).toNat = i
+  generalize hj : (o.sorted.2 + (d.cur : Int)).toNat = j
+  have hij : i ≤ j := by omega
+  have hjl : j ≤ d.text.length := by omega
+  have ei : ((d.cur : Int) + o.sorted.1).toNat = i := by rw [← hi]; congr 1; omega
+  have ej : ((d.cur : Int) + o.sorted.2).toNat = j := by rw [← hj]; congr 1; omega
+  obtain ⟨la, rest, e1, e2, e3, e4, e5⟩ := lineEnd_spec d.text j hjl
+  have ls := lineStart_le d.text i
+  have le1 := lineEnd_le d.text j
+  have le2 := lineEnd_ge d.text j hjl
+  -- the operator range
+  have hr : operatorRange d o = ((lineStart d.text i : Int) - d.cur, (lineEnd d.text j : Int) - d.cur) := by
+    unfold operatorRange
+    rw [ht]
+    simp only [lineStartI, lineEndI]
+    have ha : ¬ (o.sorted.1 + (d.cur : Int) < 0) := by omega
+    have hb : ¬ (o.sorted.2 + (d.cur : Int) < 0) := by omega
+    rw [if_neg ha, if_neg hb, hi, hj]
+  -- the end of the cut
+  let b := if rest = [] then d.text.length else lineEnd d.text j + 1
+  have hsel : selRange d.text (lineStart d.text i) (lineEnd d.text j) true = (lineStart d.text i, b) := by
+    unfold selRange
+    simp only [if_true, lineStart_idem, e4]
+    rcases e5 with hr0 | ⟨r, hr0⟩
+    · simp [b, hr0, findChar?]
+    · simp [b, hr0, findChar?]
+  have hb1 : lineEnd d.text j ≤ b ∧ b ≤ d.text.length := by
+    rcases e5 with hr0 | ⟨r, hr0⟩
+    · simp [b, hr0]; exact le1
+    · simp only [b, hr0]
+      have : (d.text.drop (lineEnd d.text j)).length = (('\n' :: r) : Text).length := by rw [e4, hr0]
+      simp at this
+      simp; omega
+  refine ⟨lineStart d.text i, b, by omega, hb1.2, by omega, by omega, lineStart_is_line_start _ _, ?_, ?_, ?_, ?_⟩
+  · rcases e5 with hr0 | ⟨r, hr0⟩
+    · left; simp [b, hr0]
+    · right
+      simp only [b, hr0]
+      have : d.text[lineEnd d.text j]? = some '\n' := by
+        have := congrArg List.head? e4
+        rw [hr0] at this
+        simpa [List.head?_drop] using this
+      simpa using this
+  · rw [ei]; exact lineStart_no_nl _ _
+  · rw [ej]
+    have hsub : ∀ c, c ∈ (d.text.take (b - 1)).drop j → c ∈ (d.text.take (lineEnd d.text j)).drop j := by
+      intro c hc
+      have hle : b - 1 ≤ lineEnd d.text j := by
+        rcases e5 with hr0 | ⟨r, hr0⟩
+        · simp only [b, hr0, if_true]
+          have : (d.text.drop (lineEnd d.text j)).length = 0 := by rw [e4, hr0]; rfl
+          simp at this; omega
+        · simp [b, hr0]
+      have : (d.text.take (b - 1)) = (d.text.take (lineEnd d.text j)).take (b - 1) := by
+        rw [List.take_take, Nat.min_eq_left hle]
+      rw [this] at hc
+      rw [List.drop_take] at hc
+      exact List.mem_of_mem_take hc
+    intro hm
+    exact lineEnd_no_nl d.text j hjl (hsub _ hm)
+  · unfold cut
+    rw [hr, ht]
+    simp only [beq_self_eq_true, Bool.not_true, Bool.false_and, Bool.false_eq_true, if_false, if_true]
+    have hdom : ¬ ((lineStart d.text i : Int) - d.cur + d.cur < 0 ∨ (lineEnd d.text j : Int) - d.cur + d.cur < 0 ∨
+        (lineEnd d.text j : Int) - d.cur + d.cur > d.text.length) := by omega
+    rw [if_neg hdom]
+    have x1 : ((lineStart d.text i : Int) - d.cur + d.cur).toNat = lineStart d.text i := by omega
+    have x2 : ((lineEnd d.text j : Int) - d.cur + d.cur).toNat = lineEnd d.text j := by omega
+    rw [x1, x2]
+    have m1 : min (lineEnd d.text j) (lineStart d.text i) = lineStart d.text i := by omega
+    have m2 : max (lineEnd d.text j) (lineStart d.text i) = lineEnd d.text j := by omega
+    simp only [cutSelection, m1, m2, hsel]
+    simp
+
+
+/-! ### registers -/
+
+theorem regGet_regSet_same (rs : List (Char × Clip)) (n : Char) (v : Clip) :
+    regGet (regSet rs n v) n = some v := by
+  simp [regGet, regSet]
+
+theorem find_filter_other (rs : List (Char × Clip)) (n m : Char) (h : m ≠ n) :
+    (rs.filter (fun p => p.1 != n)).find? (fun p => p.1 == m) = rs.find? (fun p => p.1 == m) := by
+  induction rs with
+  | nil => rfl
+  | cons p ps ih =>
+    rw [List.filter_cons]
+    by_cases hp : p.1 = n
+    · have hpm : (p.1 == m) = false := by
+        rw [hp]; exact beq_false_of_ne (fun e => h e.symm)
+      have hpn : (p.1 != n) = false := by rw [hp]; simp
+      rw [hpn, List.find?_cons, hpm]
+      simpa using ih
+    · have hpn : (p.1 != n) = true := by simpa using hp
+      rw [hpn]
+      simp only [if_true]
+      rw [List.find?_cons, List.find?_cons, ih]
+
+theorem regGet_regSet_other (rs : List (Char × Clip)) (n m : Char) (v : Clip) (h : m ≠ n) :
+    regGet (regSet rs n v) m = regGet rs m := by
+  unfold regGet regSet
+  have h1 : ((n, v).1 == m) = false := beq_false_of_ne (fun e => h e.symm)
+  rw [List.find?_cons, h1, find_filter_other rs n m h]
+
+/-- what `store` does: the unnamed register (clipboard) or exactly the named register receives
+    the data; empty non-LINES data is not stored; other registers are untouched -/
+theorem store_spec (s : St) (reg : Option Char) (c : Clip) :
+    (c.text = [] ∧ c.lines = false → store s reg c = s) ∧
+    (¬ (c.text = [] ∧ c.lines = false) →
+      match reg with
+      | none => (store s none c).clip = c ∧ (store s none c).regs = s.regs
+      | some r =>
+        (store s (some r) c).clip = s.clip ∧
+        (isRegName r = true → regGet (store s (some r) c).regs r = some c ∧
+            ∀ m, m ≠ r → regGet (store s (some r) c).regs m = regGet s.regs m) ∧
+        (isRegName r = false → (store s (some r) c).regs = s.regs)) := by
+  constructor
+  · intro ⟨h1, h2⟩; simp [store, h1, h2]
+  · intro hne
+    have hcond : (c.text.isEmpty && !c.lines) = false := by
+      cases hl : c.lines <;> cases ht : c.text <;> simp_all
+    cases reg with
+    | none => simp [store, hcond]
+    | some r =>
+      simp only [store, hcond]
+      refine ⟨by cases isRegName r <;> simp, ?_, ?_⟩
+      · intro hr; simp [hr]
+        exact ⟨regGet_regSet_same _ _ _, fun m hm => regGet_regSet_other _ _ _ _ hm⟩
+      · intro hr; simp [hr]
+
+/-- `d` / `c`: the buffer becomes the cut document, the cut data goes through `store`,
+    `c` additionally enters insert mode -/
+theorem delete_spec (s s' : St) (o : TextObject) (reg : Option Char) (change : Bool)
+    (h : opDelete s o reg change = some s') :
+    ∃ d' c, cut s.doc o = some (d', c) ∧ s'.text = d'.text ∧ s'.cur = d'.cur ∧
+      s'.insert = (s.insert || change) ∧
+      s'.clip = (store { s with text := d'.text, cur := d'.cur } reg c).clip ∧
+      s'.regs = (store { s with text := d'.text, cur := d'.cur } reg c).regs := by
+  unfold opDelete at h
+  split at h
+  · simp at h
+  · rename_i d' c hc
+    simp at h; subst h
+    refine ⟨d', c, hc, ?_, ?_, ?_, rfl, rfl⟩
+    · exact (store_text _ _ _).1
+    · exact (store_text _ _ _).2.1
+    · simp [(store_text _ _ _).2.2]
+
+/-- characterwise `d<motion>` into the clipboard: one contiguous span `[a, b)` containing or
+    touching the cursor side of the motion is removed, the clipboard holds exactly the removed
+    characters, and re-inserting the clipboard at the new cursor restores the old text -/
+theorem delete_charwise_exact (s s' : St) (o : TextObject) (change : Bool)
+    (hr : InRange s.doc o) (ht : o.type ≠ .linewise)
+    (hne : (operatorRange s.doc o).1 < (operatorRange s.doc o).2)
+    (hin : (s.cur : Int) + (operatorRange s.doc o).1 < s.text.length)
+    (h : opDelete s o none change = some s') :
+    ∃ a b : Nat, (a : Int) = s.cur + (operatorRange s.doc o).1 ∧ (b : Int) = s.cur + (operatorRange s.doc o).2 ∧
+      a < b ∧ s'.text = s.text.take a ++ s.text.drop b ∧ s'.cur = a ∧
+      s'.clip = { text := (s.text.take b).drop a, lines := false } ∧ s'.regs = s.regs ∧
+      s.text = s'.text.take s'.cur ++ s'.clip.text ++ s'.text.drop s'.cur := by
+  obtain ⟨a, b, ha, hb, hab, hcut⟩ := cut_charwise s.doc o hr ht hne
+  obtain ⟨d', c, hc, e1, e2, _, e4, e5⟩ := delete_spec s s' o none change h
+  rw [hcut] at hc
+  simp at hc
+  obtain ⟨hd, hcl⟩ := hc
+  subst hd; subst hcl
+  have hd1 : s.doc.cur = s.cur := rfl
+  have hd2 : s.doc.text = s.text := rfl
+  rw [hd1] at ha hb
+  have hal : a < s.text.length := by omega
+  have hnonempty : ¬ ((({ text := (s.doc.text.take b).drop a, lines := false } : Clip).text = []) ∧
+      ({ text := (s.doc.text.take b).drop a, lines := false } : Clip).lines = false) := by
+    simp [hd2]
+    omega
+  have hs := (store_spec { s with text := (s.doc.text.take a ++ s.doc.text.drop b), cur := a } none
+      { text := (s.doc.text.take b).drop a, lines := false }).2 hnonempty
+  simp only [] at hs
+  refine ⟨a, b, ha, hb, hab, e1, e2, ?_, ?_, ?_⟩
+  · rw [e4]; exact hs.1
+  · rw [e5]; exact hs.2
+  · rw [e4, hs.1, e1, e2]
+    simp only [hd2]
+    have hl : (s.text.take a).length = a := by simp; omega
+    rw [List.take_left' hl, List.drop_left' hl]
+    exact (slice_partition s.text a b (by omega)).symm
+
+
+theorem stripNl_spec (x : Text) : ∃ nl : Text, (nl = [] ∨ nl = ['\n']) ∧ stripNl x ++ nl = x := by
+  unfold stripNl
+  split
+  · rename_i h
+    obtain ⟨ys, hy⟩ := List.getLast?_eq_some_iff.1 h
+    exact ⟨['\n'], Or.inr rfl, by rw [hy]; simp⟩
+  · exact ⟨[], Or.inl rfl, by simp⟩
+
+/-- linewise `d<motion>` into the clipboard: whole lines `[a, b)` are removed, the clipboard
+    (type LINES) holds them without the final newline, and re-inserting restores the text -/
+theorem delete_linewise_exact (s s' : St) (o : TextObject) (change : Bool)
+    (hr : InRange s.doc o) (ht : o.type = .linewise)
+    (h : opDelete s o none change = some s') :
+    ∃ a b : Nat, a ≤ b ∧ b ≤ s.text.length ∧
+      (a : Int) ≤ s.cur + o.sorted.1 ∧ (s.cur : Int) + o.sorted.2 ≤ b ∧
+      (a = 0 ∨ s.text[a - 1]? = some '\n') ∧ (b = s.text.length ∨ s.text[b - 1]? = some '\n') ∧
+      s'.text = s.text.take a ++ s.text.drop b ∧ s'.cur = a ∧
+      s'.clip = { text := stripNl ((s.text.take b).drop a), lines := true } ∧ s'.regs = s.regs ∧
+      ∃ nl : Text, (nl = [] ∨ nl = ['\n']) ∧
+        s.text = s'.text.take s'.cur ++ (s'.clip.text ++ nl) ++ s'.text.drop s'.cur := by
+  obtain ⟨a, b, hab, hbl, c1, c2, c3, c4, _, _, hcut⟩ := cut_linewise s.doc o hr ht
+  obtain ⟨d', c, hc, e1, e2, _, e4, e5⟩ := delete_spec s s' o none change h
+  rw [hcut] at hc
+  simp at hc
+  obtain ⟨hd, hcl⟩ := hc
+  subst hd; subst hcl
+  have hd1 : s.doc.cur = s.cur := rfl
+  have hd2 : s.doc.text = s.text := rfl
+  rw [hd1] at c1 c2
+  rw [hd2] at hbl c3 c4
+  have hnonempty : ¬ ((({ text := stripNl ((s.doc.text.take b).drop a), lines := true } : Clip).text = []) ∧
+      ({ text := stripNl ((s.doc.text.take b).drop a), lines := true } : Clip).lines = false) := by
+    simp
+  have hs := (store_spec { s with text := (s.doc.text.take a ++ s.doc.text.drop b), cur := a } none
+      { text := stripNl ((s.doc.text.take b).drop a), lines := true }).2 hnonempty
+  simp only [] at hs
+  obtain ⟨nl, hnl, hstrip⟩ := stripNl_spec ((s.text.take b).drop a)
+  refine ⟨a, b, hab, hbl, c1, c2, c3, c4, e1, e2, ?_, ?_, nl, hnl, ?_⟩
+  · rw [e4]; exact hs.1
+  · rw [e5]; exact hs.2
+  · rw [e4, hs.1, e1, e2]
+    simp only [hd2]
+    have hl : (s.text.take a).length = a := by simp; omega
+    rw [List.take_left' hl, List.drop_left' hl, hstrip]
+    exact (slice_partition s.text a b hab).symm
+
+/-- case operators: only `text[a:b)` is replaced (by its image under the callback); clipboard
+    and registers are untouched -/
+theorem transform_frame (f : Text → Text) (s s' : St) (o : TextObject)
+    (hr : InRange s.doc o) (h : opTransform f s o = some s') :
+    s'.clip = s.clip ∧ s'.regs = s.regs ∧ s'.insert = s.insert ∧
+    ((operatorRange s.doc o).1 ≥ (operatorRange s.doc o).2 → s' = s) ∧
+    ((operatorRange s.doc o).1 < (operatorRange s.doc o).2 →
+      ∃ a b : Nat, (a : Int) = s.cur + (operatorRange s.doc o).1 ∧
+        (b : Int) = s.cur + (operatorRange s.doc o).2 ∧ a < b ∧
+        s'.text = s.text.take a ++ f ((s.text.take b).drop a) ++ s.text.drop b) := by
+  obtain ⟨b1, b2, b3⟩ := operatorRange_bounds s.doc o hr
+  have hd1 : s.doc.cur = s.cur := rfl
+  rw [hd1] at b1 b3
+  by_cases hlt : (operatorRange s.doc o).1 < (operatorRange s.doc o).2
+  · have hnn : ¬ ((operatorRange s.doc o).1 + (s.cur : Int) < 0) := by omega
+    simp only [opTransform, hlt, if_true, hnn, if_false] at h
+    simp at h; subst h
+    refine ⟨rfl, rfl, rfl, fun hge => absurd hlt (by omega), fun _ => ?_⟩
+    refine ⟨((operatorRange s.doc o).1 + (s.cur : Int)).toNat, ((operatorRange s.doc o).2 + (s.cur : Int)).toNat,
+      by omega, by omega, by omega, by simp⟩
+  · simp only [opTransform, hlt, if_false] at h
+    simp at h; subst h
+    exact ⟨rfl, rfl, rfl, fun _ => rfl, fun hlt' => absurd hlt' hlt⟩
 
 end Ptk.C08
